@@ -84,6 +84,18 @@ SectionOf(s) ==
   LET body == SectionBody(s)  sl == Len(body) + 4
       pre == <<s.tableid, (B(s.ssi) * 128) + (B(s.priv) * 64) + 48 + (sl \div 256), sl % 256>> \o body
   IN pre \o Crc32(pre)
+\* the syntax can express the abstract section: every length fits its field (a value built through the setter
+\* API can fail this - e.g. a segmentation descriptor body above 255 bytes; such a value has no encoding at all)
+Representable(s) ==
+  /\ \A i \in 1..Len(s.descs) :
+        IF s.descs[i].kind = "seg"
+        THEN /\ Len(SegBody(s.descs[i])) <= 255 /\ Len(UpidBytes(s.descs[i])) <= 255 /\ Len(s.descs[i].comps) <= 255
+             /\ \A j \in 1..Len(s.descs[i].mid) : Len(s.descs[i].mid[j].upid) <= 255
+        ELSE Len(s.descs[i].body) <= 255
+  /\ Len(DescLoop(s.descs)) <= 65535
+  /\ Len(CmdBytes(s.cmd)) <= 4095
+  /\ (s.cmd.kind = "insert" => Len(s.cmd.comps) <= 255)
+  /\ Len(SectionBody(s)) + 4 <= 4093
 \* canonical form: ssi = 0, private = 0, no alignment stuffing
 Canonical(s) == ~s.ssi /\ ~s.priv /\ s.tableid = 252 /\ ~s.enc
 
